@@ -92,7 +92,25 @@ func init() {
 		},
 		"fmt.Sprint": func(p *Path, fr *frame, a []Value) Value { return p.sprint(a[0].(Slice)) },
 
-		"math.Sqrt": func(p *Path, fr *frame, a []Value) Value { return p.e.ts.FPUn("fp.sqrt", a[0].(*Term)) },
+		"math.Sqrt": func(p *Path, fr *frame, a []Value) Value {
+			if x := a[0].(*Term); p.cfg.FPAbstract["sqrt"] && !x.isConst {
+				return p.newFPInput("fpabs.sqrt")
+			}
+			return p.e.ts.FPUn("fp.sqrt", a[0].(*Term))
+		},
+		"math.Pow": func(p *Path, fr *frame, a []Value) Value {
+			x, y := a[0].(*Term), a[1].(*Term)
+			if x.isConst && y.isConst {
+				return p.e.ts.FP(64, math.Pow(x.F(), y.F()))
+			}
+			if p.cfg.FPAbstract["pow"] {
+				return p.newFPInput("fpabs.pow")
+			}
+			if y.isConst && y.F() == 2.0 {
+				return p.e.ts.FPBin("fp.mul", x, x)
+			}
+			panic(engineError("math.Pow with symbolic arguments (use //vf:fpabstract pow)"))
+		},
 		"math.Abs":  func(p *Path, fr *frame, a []Value) Value { return p.e.ts.FPUn("fp.abs", a[0].(*Term)) },
 		"math.Max":  func(p *Path, fr *frame, a []Value) Value { return p.mathMaxMin(a[0].(*Term), a[1].(*Term), true) },
 		"math.Min":  func(p *Path, fr *frame, a []Value) Value { return p.mathMaxMin(a[0].(*Term), a[1].(*Term), false) },
@@ -324,6 +342,11 @@ func (p *Path) fmtArg(verb byte, v Value) *Str {
 			return e.strOf("<nil>")
 		}
 		// error / Stringer
+		if t, isT := ifc.V.(*Term); isT && !t.isConst {
+			// formatting a symbolic number (e.g. a time.Duration through its String method)
+			// would fork on every digit: the text is opaque instead
+			return &Str{b: []*Term{e.byteConst['?']}, opaque: true}
+		}
 		if verb == 's' || verb == 'v' || verb == 'q' {
 			if m := p.safeLookup(ifc.T, "Error"); m != nil && verb != 'd' {
 				if s, ok := p.tryCallStringMethod(m, ifc.V); ok {
